@@ -57,8 +57,9 @@ structure Quirks where
 
 /-- the tree as it was before `fix: SymbolGraph.remove_node purges the relation index …` (c18b52a) -/
 def Quirks.original : Quirks := ⟨true, true, true, true, true, true⟩
-/-- the code as it is: `fixes/C14_purge_relation_index.diff` is applied (commit c18b52a), the other defects are open -/
-def Quirks.asIs : Quirks := ⟨false, false, true, true, true, true⟩
+/-- the code as it is: `fixes/C14_purge_relation_index.diff` (commit c18b52a) and the de-duplication of
+`recursive_subclasses` (F-C13-2, fix commit in /repo) are applied, the other defects are open -/
+def Quirks.asIs : Quirks := ⟨false, false, true, true, true, false⟩
 def Quirks.none : Quirks := ⟨false, false, false, false, false, false⟩
 
 inductive Kind where
